@@ -1,0 +1,60 @@
+//go:build verif
+
+package avfs
+
+// Contracts for the deductive verifier in /verif (govc).  This file contains comments only;
+// it is compiled only with the build tag "verif" and adds no code.
+
+//@ func (*OSTypeFn).SetOSType
+//@   mode bv
+//@   let t := osType == OsUnknown ? CurrentOSType() : osType
+//@   ensures[C17] (BuildFeatures()&FeatSetOSType != 0 || t == CurrentOSType()) ==> err == nil && osf.osType == t
+//@   ensures[C17] BuildFeatures()&FeatSetOSType == 0 && t != CurrentOSType() ==> err == ErrSetOSType
+//@   ensures[C17] BuildFeatures()&FeatSetOSType == 0 && t != CurrentOSType() ==> sepOK(osf) && osf.osType == CurrentOSType()
+//@   ensures[C17,C13] err == nil ==> sepOK(osf)
+//@   modifies osf.osType, osf.pathSeparator
+
+//@ pred sepOK(o *OSTypeFn) := o.pathSeparator == (o.osType == OsWindows ? '\\' : '/')
+
+// ---- copy.go (C16) ---------------------------------------------------------------------------
+
+//@ func copyBufPool
+//@   event
+//@   requires dst != nil && src != nil
+//@   ensures[C16] called(io.CopyBuffer) && written == result(io.CopyBuffer, 0) && err == result(io.CopyBuffer, 1)
+//@   at call io.CopyBuffer assert[C16] arg0 == dst && arg1 == src
+
+//@ func CopyFileHash
+//@   event
+//@   requires srcFs != nil && dstFs != nil
+//@   ensures[C16] err == nil ==> !failed(srcFs.OpenFile)
+//@   ensures[C16] err == nil ==> !failed(dstFs.Create)
+//@   ensures[C16] err == nil ==> called(copyBufPool) && !failed(copyBufPool)
+//@   ensures[C16] err == nil ==> called(dst.Sync) && !failed(dst.Sync)
+//@   ensures[C16] err == nil ==> called(srcFs.Stat) && !failed(srcFs.Stat)
+//@   ensures[C16] err == nil ==> called(dstFs.Chmod) && !failed(dstFs.Chmod)
+//@   ensures[C16] err == nil ==> called(dst.Close) && !failed(dst.Close)
+//@   ensures[C16] err != nil ==> sum == nil
+//@   ensures[C16] err == nil && hasher != nil ==> called(hasher.Sum) && sum == result(hasher.Sum) && before(hasher.Reset, copyBufPool) && before(copyBufPool, hasher.Sum)
+//@   ensures[C16] err == nil && hasher == nil ==> sum == nil
+//@   ensures[C16] called(dstFs.Create) ==> arg(dstFs.Create, 0) == dstPath
+//@   ensures[C16] called(srcFs.OpenFile) ==> arg(srcFs.OpenFile, 0) == srcPath && arg(srcFs.OpenFile, 1) == 0
+//@   ensures[C16] called(copyBufPool) ==> arg(copyBufPool, 1) == result(srcFs.OpenFile, 0)
+//@   ensures[C16] called(copyBufPool) && hasher == nil ==> arg(copyBufPool, 0) == result(dstFs.Create, 0)
+//@   ensures[C16] called(dstFs.Create) && !failed(dstFs.Create) ==> called(dst.Close)
+//@   ensures[C16] called(srcFs.OpenFile) && !failed(srcFs.OpenFile) ==> called(src.Close)
+//@   at call dstFs.Chmod assert[C16] arg0 == dstPath && arg1 == result(srcFs.Stat, 0).Mode()
+//@   at call srcFs.Stat assert[C16] arg0 == srcPath
+
+//@ func CopyFile
+//@   requires srcFs != nil && dstFs != nil
+//@   ensures[C16] called(CopyFileHash) && r0 == result(CopyFileHash, 1)
+//@   at call CopyFileHash assert[C16] arg0 == dstFs && arg1 == srcFs && arg2 == dstPath && arg3 == srcPath
+
+//@ func HashFile
+//@   requires vfs != nil && hasher != nil
+//@   ensures[C16] err == nil ==> !failed(vfs.OpenFile) && called(copyBufPool) && !failed(copyBufPool)
+//@   ensures[C16] err == nil ==> called(hasher.Sum) && sum == result(hasher.Sum) && before(hasher.Reset, copyBufPool) && before(copyBufPool, hasher.Sum)
+//@   ensures[C16] err != nil ==> sum == nil
+//@   ensures[C16] called(copyBufPool) ==> arg(copyBufPool, 1) == result(vfs.OpenFile, 0)
+//@   ensures[C16] called(vfs.OpenFile) && !failed(vfs.OpenFile) ==> called(f.Close)
